@@ -28,6 +28,9 @@ type inboundParams struct {
 	PRestart  float64 // stop and AdoptSession
 	PStoreErr float64 // transient marker Save/Delete/Load error
 	PReuse    float64
+	// PLoseSession: the broker forgets the session at a connection loss (not
+	// for C04, whose messages must all arrive)
+	PLoseSession float64
 }
 
 type inMsg struct {
@@ -56,6 +59,9 @@ type inboundRun struct {
 	competed int
 	bigCuts  int
 	viol     bool
+
+	sessionsLost  int
+	sessionLostAt []int64
 }
 
 type genRead struct {
@@ -224,6 +230,13 @@ func runInbound(c *run.Ctx, ip inboundParams) *inboundRun {
 				} else {
 					cn.EndInbound(-1, &netReset{})
 				}
+				if c.Rng.Float64() < ip.PLoseSession {
+					// the broker comes back without the session: what the
+					// client owes it still goes out on the next connection
+					w.Broker.LoseSession()
+					ir.sessionsLost++
+					ir.sessionLostAt = append(ir.sessionLostAt, w.Now())
+				}
 			}
 		case r < 0.75+ip.PCompete+ip.PBreak+ip.PLostAck:
 			w.Mu.Lock()
@@ -252,7 +265,9 @@ func runInbound(c *run.Ctx, ip inboundParams) *inboundRun {
 			if pendingFail > 0 {
 				continue
 			}
-			// stop: the process state is gone, the Persistence stays
+			// stop: the process state is gone, the Persistence stays; the
+			// application may hold a message while another goroutine ends the client
+			ep.D.StopByDisconnect = c.Rng.Intn(2) == 0
 			if !ep.D.CloseAndWait() {
 				c.Violate("close-stuck", "Close did not end the client at a stop", nil)
 				c.Spoiled()
@@ -425,7 +440,7 @@ func checkC07(ir *inboundRun) (pauses int) {
 			wantTyp = wire.PUBREC
 		}
 		if a.Typ != wantTyp {
-			c.Violate("wrong-acknowledgement-type", fmt.Sprintf("%s for a level %d message", wire.TypeName(a.Typ), best.m.QoS), nil)
+			c.Violate("wrong-acknowledgement-type", fmt.Sprintf("conn %d: %s %#04x written at #%d, the last return of that identifier before it is message %d (level %d) at #%d", a.Conn, wire.TypeName(a.Typ), a.ID, a.Seq, best.m.N, best.m.QoS, best.r), map[string]any{"trace_tail": ir.W.TraceTail(traceN(ir.c))})
 		}
 		// the application must have invoked ReadSlices again after the return
 		// (in that generation or, after a restart, never: then a retransmission
@@ -477,6 +492,16 @@ func checkC07(ir *inboundRun) (pauses int) {
 		after := rt.r
 		if rt.gen != ir.gen {
 			after = rt.m.SentSeq
+			// a broker that forgot the message does not send it again either
+			forgotten := false
+			for _, at := range ir.sessionLostAt {
+				if at > rt.m.SentSeq {
+					forgotten = true
+				}
+			}
+			if forgotten {
+				continue
+			}
 		}
 		okAck := false
 		for _, a := range acks {
@@ -608,10 +633,15 @@ func init() {
 			return 4500
 		},
 		ChunkSize:   50,
-		Rule:        "each case is a PRNG step script over a harness-controlled read loop (every ReadSlices invocation is granted explicitly): the reference broker sends messages at the three levels (some beyond the read buffer), the application pauses after each return while 0-3 concurrent outbound requests (Publish, Ping, Subscribe, persisted publish) use the connection, the connection is broken, the acknowledgement's own write is accepted and lost, the client is restarted on the same Persistence. Oracle: each PUBACK/PUBREC on any connection follows a return of that identifier AND the next ReadSlices invocation after it; every returned QoS 1/2 message is acknowledged on some connection by idle. Non-trivial: a pause (return followed by a later invocation) with the acknowledgement observed after it; distinct by counts of competing requests, breaks, lost acknowledgements, restarts, big messages.",
+		Rule:        "each case is a PRNG step script over a harness-controlled read loop (every ReadSlices invocation is granted explicitly): the reference broker sends messages at the three levels (some beyond the read buffer), the application pauses after each return while 0-3 concurrent outbound requests (Publish, Ping, Subscribe, persisted publish) use the connection, the connection is broken (in the at-least-once-only scripts the broker forgets its session at 3 in 10 of the losses), the acknowledgement's own write is accepted and lost, the client is restarted on the same Persistence. Oracle: each PUBACK/PUBREC on any connection follows a return of that identifier AND the next ReadSlices invocation after it; every returned QoS 1/2 message is acknowledged on some connection by idle. Non-trivial: a pause (return followed by a later invocation) with the acknowledgement observed after it; distinct by counts of competing requests, breaks, lost acknowledgements, restarts, big messages.",
 		Assumptions: []string{"'took ownership' is the invocation of the next ReadSlices in a running process", "acknowledgement times are the logical time of the first byte accepted by the connection"},
 		Run: func(c *run.Ctx) {
 			ip := inboundParams{Steps: 10 + c.Rng.Intn(50), Levels: [][]byte{{1}, {2}, {0, 1, 2}, {1, 2}}[c.Rng.Intn(4)], PBig: 0.1, PCompete: 0.08, PBreak: 0.04, PLostAck: 0.03, PRestart: 0.02, PStoreErr: 0.01, PReuse: 0.5}
+			if len(ip.Levels) == 1 && ip.Levels[0] == 1 {
+				// (with exactly-once traffic a forgotten session leaves markers behind
+				// that meet the identifiers the broker hands out anew: outside C07)
+				ip.PLoseSession = 0.3
+			}
 			if c.Rng.Intn(2) == 0 {
 				ip.BufSize = []int{64, 128, 256}[c.Rng.Intn(3)]
 			} else {
@@ -630,6 +660,7 @@ func init() {
 			c.Count("breaks_inside_a_big_payload", ir.bigCuts)
 			c.Count("acknowledgements_lost", ir.lostAcks)
 			c.Count("restarts", ir.restarts)
+			c.Count("sessions_lost_by_broker", ir.sessionsLost)
 			if pauses > 0 && ir.competed+ir.breaks+ir.lostAcks+ir.restarts > 0 {
 				c.Trigger(fmt.Sprintf("compete=%d|break=%d|lost=%d|restart=%d|buf=%d", min(ir.competed, 3), min(ir.breaks, 3), min(ir.lostAcks, 2), min(ir.restarts, 2), ip.BufSize))
 			}
